@@ -999,10 +999,16 @@ impl<'a> Sim<'a> {
             self.released.insert(pid);
         }
         self.expected_client_acks.push((7, pid));
-        rc::encode(
-            &rc::Packet::Pubrel(rc::Ack { pid, ..Default::default() }),
-            &rc::Form::short(),
-        )
+        // every form and both reason codes a PUBREL may carry (0x92 = Packet Identifier not
+        // found): whatever it says, it is answered with exactly one PUBCOMP
+        let n = self.expected_client_acks.len();
+        let ack = match n % 5 {
+            0 => rc::Ack { pid, reason: 0x92, ..Default::default() },
+            1 => rc::Ack { pid, reason: 0x92, reason_string: Some("gone".into()), ..Default::default() },
+            2 => rc::Ack { pid, reason: 0, user_props: vec![("k".into(), "v".into())], ..Default::default() },
+            _ => rc::Ack { pid, ..Default::default() },
+        };
+        rc::encode(&rc::Packet::Pubrel(ack), &if n % 5 == 4 { rc::Form::canonical() } else { rc::Form::short() })
     }
 
     fn inbound_bytes(&mut self, inb: &Inbound) -> Option<Vec<u8>> {
